@@ -70,6 +70,21 @@ type c03H3Scenario struct {
 	trailers bool   // a trailers HEADERS frame follows the DATA frames
 	enc      string // Content-Encoding of the response ("" = none): the body is the ENCODED byte string
 	surplus  []byte // the bytes sent beyond the body (len = extra); nil = extra times 'X'
+	extraHdr [][2]string // further response header fields (prelude exchanges: challenge, location)
+}
+
+// c03H3Prelude is the complete, body-less exchange in front of the scripted one (see c03Positions).
+func c03H3Prelude(pos string) c03H3Scenario {
+	sc := c03H3Scenario{name: "prelude-" + pos, declared: 0, frames: 1, ending: "fin", complete: true}
+	switch pos {
+	case "digest":
+		sc.status, sc.extraHdr = 401, [][2]string{{"www-authenticate", `Digest realm="c03", nonce="5f1c0a77c03", qop="auth", algorithm=MD5`}}
+	case "retried":
+		sc.status = 503
+	case "redirect":
+		sc.status, sc.extraHdr = 302, [][2]string{{"location", "/after-redirect"}}
+	}
+	return sc
 }
 
 // c03H3Wire is what the peer writes for a scenario: the first burst, an optional later burst, and
@@ -108,6 +123,7 @@ func c03H3Plan(sc c03H3Scenario) (w c03H3Wire) {
 	if sc.enc != "" {
 		f = append(f, [2]string{"content-encoding", sc.enc})
 	}
+	f = append(f, sc.extraHdr...)
 	w.fieldLists = append(w.fieldLists, f)
 	w.first = append(w.first, c03H3Frame(0x1, c03H3Block(f))...)
 	payload := []byte(sc.body)[:sc.send]
@@ -276,6 +292,29 @@ func (p *c03H3Peer) serveStream(conn quic.Connection, str quic.Stream) {
 	}
 }
 
+// c03NextKind: one kind of follow-up request. model = <safe><hasBody><idemKey> for `h3Next`.
+type c03NextKind struct {
+	name, model string
+	do          func(c *Client, url string) (*Response, error)
+}
+
+var c03NextKinds = []c03NextKind{
+	{"get", "100", func(c *Client, url string) (*Response, error) { return c.R().Get(url) }},
+	{"post-bytes", "010", func(c *Client, url string) (*Response, error) { return c.R().SetBodyString("ping").Post(url) }},
+	{"post-reader", "010", func(c *Client, url string) (*Response, error) {
+		return c.R().SetBody(io.NopCloser(strings.NewReader("ping-from-a-reader"))).Post(url)
+	}},
+	{"put-bytes", "010", func(c *Client, url string) (*Response, error) { return c.R().SetBodyBytes([]byte("ping")).Put(url) }},
+	{"post-empty", "000", func(c *Client, url string) (*Response, error) { return c.R().Post(url) }},
+	{"delete", "000", func(c *Client, url string) (*Response, error) { return c.R().Delete(url) }},
+	{"post-idem-key", "001", func(c *Client, url string) (*Response, error) {
+		return c.R().SetHeader("Idempotency-Key", "c03-1").Post(url)
+	}},
+}
+
+// c03NextAfterClose: the order in which follow-up kinds are used after a connection close.
+var c03NextAfterClose = []int{1, 4, 2, 5, 3, 6, 0}
+
 func TestVerif_C03_h3cut(t *testing.T) {
 	s := verifh.New(t, "C03", "h3cut",
 		"real client forced to HTTP/3 against a frame-script peer on raw quic-go streams: response HEADERS with/without content-length, body in 1-4 DATA frames, ended after a strict prefix of the body "+
@@ -284,6 +323,8 @@ func TestVerif_C03_h3cut(t *testing.T) {
 			"classes (known findings): h3-fin-truncated = clean FIN before the declared length or inside a DATA frame reported as success; "+
 			"h3-closed-conn-reuse = the request after a connection close fails on the dead cached connection. non-trivial = fault injected")
 	r := s.Rand()
+	rp := c03PosRand(4) // the round-6 dimensions draw from their own stream
+	closeSeq := 0
 	peer := newC03H3Peer(t)
 	defer peer.ln.Close()
 	url := "https://" + peer.ln.Addr().String() + "/x"
@@ -491,16 +532,49 @@ func TestVerif_C03_h3cut(t *testing.T) {
 		} else {
 			cc.prepClient(c)
 		}
+		// exchange position (digest re-send / last attempt of a retried call / after a redirect): the
+		// scripted response answers the LAST exchange of the call; the peer serves a complete
+		// body-less prelude first. Not with a connection close: a reused connection that dies before
+		// the response head makes RoundTripOpt replay the GET on a fresh connection.
+		cc.pos = c03PickPos(rp, cc.mode, sc.ending != "conn-close")
+		if cc.pos != "" {
+			c03ApplyPos(c, cc.pos)
+			peer.mu.Lock()
+			peer.queue = []c03H3Scenario{c03H3Prelude(cc.pos), sc}
+			peer.mu.Unlock()
+			s.Count("pos:" + cc.pos)
+			reached["pos:"+cc.pos]++
+			if !sc.complete {
+				reached["pos-cut:"+cc.pos]++
+			}
+		}
 		callerName := cc.name()
 		if stream {
 			callerName = "stream"
 		}
 		s.Count("caller:" + callerName)
+		// the NEXT request: every method / body kind. RoundTripOpt replays only requests without a
+		// body that are safe or carry an idempotency key; the model (h3Next) says the cache never
+		// hands out a dead connection, so every kind is served. After a SUCCESSFUL first exchange the
+		// follow-up stays a GET (a connection close still on its way then races with it, as in any pool).
+		nextKind := verifh.Pick(rp, c03NextKinds)
+		retries := cc.pos == "retried" || (!stream && cc.mode == "retry")
+		if sc.ending == "conn-close" {
+			// the cases the dimension is about get every kind in turn (non-replayable ones first)
+			nextKind = c03NextKinds[c03NextAfterClose[closeSeq%len(c03NextAfterClose)]]
+			if nextKind.name != "post-reader" || !retries {
+				closeSeq++
+			}
+		}
+		if nextKind.name == "post-reader" && retries {
+			nextKind = c03NextKinds[1] // (req refuses a reader body on a client with retries configured)
+		}
 		type out struct {
 			fx          c03First
 			first, ferr string
 			secondOK    bool
 			serr        string
+			nextKind    c03NextKind
 		}
 		peer.mu.Lock()
 		connsBefore := peer.conns
@@ -510,7 +584,15 @@ func TestVerif_C03_h3cut(t *testing.T) {
 			var o out
 			o.fx = c03DoFirstX(c, method, url, stream, cc)
 			o.first, o.ferr = o.fx.render()
-			second, err2 := c.R().Get(url)
+			if o.fx.ok {
+				nextKind = c03NextKinds[0]
+			} else if sc.ending == "conn-close" {
+				// quic-go fails the streams first and cancels the connection's context a moment later:
+				// let the close finish, so that the request is not sent into it
+				time.Sleep(30 * time.Millisecond)
+			}
+			o.nextKind = nextKind
+			second, err2 := nextKind.do(c, url)
 			if err2 == nil && second != nil && second.Response != nil {
 				if stream {
 					b, rerr := io.ReadAll(second.Body)
@@ -568,7 +650,15 @@ func TestVerif_C03_h3cut(t *testing.T) {
 		if ze != nil {
 			lane = "c03h3z " + ze.enc + " "
 		}
-		line := lane + map[bool]string{true: "1", false: "0"}[sc.head] + " " + verifh.HexList(segs) + " " + endKind + " " + flArg + " " + mode
+		if o.nextKind.name == "" {
+			o.nextKind = c03NextKinds[0]
+		}
+		s.Count("next:" + o.nextKind.name)
+		reached["next:"+o.nextKind.name]++
+		if endKind == "close" && !o.fx.ok {
+			reached["next-after-conn-close:"+o.nextKind.name]++
+		}
+		line := lane + map[bool]string{true: "1", false: "0"}[sc.head] + " " + verifh.HexList(segs) + " " + endKind + " " + flArg + " " + mode + " " + o.nextKind.model
 		impl := "fail"
 		switch {
 		case o.first == "hang":
@@ -581,6 +671,9 @@ func TestVerif_C03_h3cut(t *testing.T) {
 			impl = "fail-body delivered=" + verifh.Hex(string(o.fx.body))
 		case stream:
 			impl = "fail-body"
+		}
+		if o.first != "hang" {
+			impl += " next=" + map[bool]string{true: "ok", false: "fail"}[o.secondOK]
 		}
 		impl += " dials=" + strconv.Itoa(dials)
 		// second opinion: the Go-side property oracle
@@ -623,8 +716,8 @@ func TestVerif_C03_h3cut(t *testing.T) {
 		reached[sc.name]++
 		s.Count("scenario:" + sc.name)
 		s.Count("dials:" + strconv.Itoa(dials))
-		human := fmt.Sprintf("h3 %s enc="+ze.tag()+" declared=%d body=%d sent=%d extra=%d frames=%d interim=%d tail=%x caller=%s -> %s (%s) second-ok=%v dials=%d",
-			sc.name, sc.declared, len(body), sc.send, sc.extra, sc.frames, sc.interim, sc.tail, callerName, c04Short(o.first), o.ferr, o.secondOK, dials)
+		human := fmt.Sprintf("h3 %s enc="+ze.tag()+" declared=%d body=%d sent=%d extra=%d frames=%d interim=%d tail=%x caller=%s pos=%s -> %s (%s) next=%s second-ok=%v dials=%d",
+			sc.name, sc.declared, len(body), sc.send, sc.extra, sc.frames, sc.interim, sc.tail, callerName, cc.pos, c04Short(o.first), o.ferr, o.nextKind.name, o.secondOK, dials)
 		if why != "" {
 			human += " ORACLE: " + why
 		}
@@ -652,7 +745,10 @@ func TestVerif_C03_h3cut(t *testing.T) {
 	for _, need := range []string{"ok", "fail", "complete", "complete-head-with-length", "complete-304-with-length", "short-fin", "reset-code-100", "reset-code-10b", "reset-code-10c", "conn-close-code-100", "conn-close-code-102", "midframe-fin", "overlong", "overlong-late-frame", "overlong-at-read-buffer", "overlong-zero-length", "interim-1xx:short-fin", "interim-1xx:overlong", "interim-1xx:complete", "close-before-headers", "reset-after-full-body",
 		"fin-in-frame-header", "fin-in-skipped-frame", "fin-in-settings-frame", "fin-in-trailer-frame", "complete-with-unknown-frames", "complete-with-trailers", "short-with-trailers",
 		"enc-fault-before-first-byte", "enc-short-at-member-boundary", "enc-overlong-member", "enc:gzip-transparent", "enc:gzip-auto", "enc:deflate-auto", "enc:br-auto", "enc:zstd-auto",
-		"enc-fault:gzip", "enc-fault:deflate", "enc-fault:br", "enc-fault:zstd", "zstd-frame-start-cut"} {
+		"enc-fault:gzip", "enc-fault:deflate", "enc-fault:br", "enc-fault:zstd", "zstd-frame-start-cut",
+		"pos:digest", "pos:retried", "pos:redirect", "pos-cut:digest", "pos-cut:retried", "pos-cut:redirect",
+		"next:get", "next:post-bytes", "next:post-reader", "next:put-bytes", "next:post-empty", "next:delete", "next:post-idem-key",
+		"next-after-conn-close:post-bytes", "next-after-conn-close:post-reader", "next-after-conn-close:post-empty"} {
 		if reached[need] == 0 {
 			t.Errorf("C03/h3cut never reached %q", need)
 		}
